@@ -159,4 +159,30 @@ def maybeComment (o : Opts) (commentsOn : Bool) (sql : Str) (cs : List Str) : St
     (fun (l : List Str) => if l.isEmpty then sql else sql ++ ' ' :: intercalateS [' '] l)
       ((cs.filter (fun c => !c.isEmpty)).map fun c => ['/', '*'] ++ replaceLineBreaks o (sanitizeComment c) ++ ['*', '/'])
 
+/-! ### `_embed_ignore_nulls`: put `IGNORE NULLS` inside the aggregate call, before its closing parenthesis -/
+
+/-- the aggregate call as the generator sees it: the rendered call WITHOUT comments (`self.sql(agg, comment=False)`, ending in
+    `)`), and the node's comments -/
+structure Call where
+  body : Str            -- the call text up to, not including, the closing parenthesis
+  comments : List Str
+
+def renderComments (o : Opts) (cs : List Str) : Str := maybeComment o true [] cs
+
+/-- the source: `self.sql(agg, comment=False)[:-1] + f" {text})"`, then `maybe_comment(…, comments=agg.comments)` -/
+def embedSlice (o : Opts) (c : Call) (text : Str) : Str :=
+  maybeComment o true (((c.body ++ [')']).dropLast) ++ ' ' :: text ++ [')']) c.comments
+
+/-- index of the last `)` (`str.rfind(")")`), `none` when absent -/
+def rfindParen (s : Str) : Option Nat :=
+  (s.reverse.findIdx? (· == ')')).map (fun i => s.length - 1 - i)
+
+/-- the variant: render WITH comments, insert before the last `)` of the whole text -/
+def embedRfind (o : Opts) (c : Call) (text : Str) : Str :=
+  (fun rendered =>
+    match rfindParen rendered with
+    | some i => rendered.take i ++ ' ' :: text ++ rendered.drop i
+    | none => rendered)
+  (maybeComment o true (c.body ++ [')']) c.comments)
+
 end SqlglotModel.Pretty
